@@ -443,7 +443,7 @@ def apply_op(env, op, regs, arg, tag):
     """library part of an op on the registers [t, u] of one mode; returns the observed value (normalised) or None"""
     import numpy as np
     import bionumpy as bnp
-    t, u = regs
+    t, u = regs[0], regs[1]   # registers 2.. are the retained tables
     kind = op[0]
     if kind == "len":
         return len(t)
@@ -561,15 +561,16 @@ def _short(v):
     return s if len(s) < 220 else s[:220] + "..."
 
 
-def run_program(env, prog, final=True):
-    """-> (status, [Divergence]); status in ok / skip / both-fail(step).  Stops at the first diverging step; the
-    final observation reports every diverging observation."""
+def _execute(env, prog):
+    """read in both modes and apply the ops in lock-step -> (status, divs, L, E); status ok / both-fail: every op was
+    applied (divs = header-only differences of writes inside the program); skip; diverged: stopped at the first
+    diverging step.  L, E = registers [t, u, retained tables ...] of the lazy and of the eager run"""
     need_u = any(op[0] == "swap" or (op[0] == "cat" and "u" in op[1]) for op in prog)
     lo = _outcome(lambda: env.read(True, need_u))
     eo = _outcome(lambda: env.read(False, need_u))
     if lo[0] == "exc" or eo[0] == "exc":
         st, d = _compare(-1, "read", ("ok", None) if lo[0] == "ok" else lo, ("ok", None) if eo[0] == "ok" else eo)
-        return ("both-fail" if st else "diverged"), ([d] if d else [])
+        return ("both-fail-read" if st else "diverged"), ([d] if d else []), None, None
     L, E = lo[1], eo[1]
     soft = []   # header-only differences of a write inside the program: recorded, the program goes on
     status = "ok"
@@ -579,10 +580,12 @@ def run_program(env, prog, final=True):
             n = len(E[0])
         except Exception:
             n = 0
+        if op[0] == "swapk" and (len(E) <= 2 or len(L) <= 2):
+            return "skip", [], L, E
         try:
             arg = prepare(op, fields, n)
         except Skip:
-            return "skip", []
+            return "skip", [], L, E
         mk = arg if callable(arg) else (lambda: arg)
         la, ea = mk(), mk()
         lo = _outcome(lambda: apply_op(env, op, L, la, "lazy"))
@@ -594,28 +597,58 @@ def run_program(env, prog, final=True):
                 if not soft:
                     soft.append(d)
                 continue
-            return "diverged", soft + [d]
+            return "diverged", soft + [d], L, E
         if st == "both-fail":
             status = "both-fail"   # the step fails in both modes, as the statement allows; the program goes on
-    if not final:
-        return status, soft
-    divs = list(soft)
+    return status, soft, L, E
+
+
+def _observe(env, lt, et, step):
+    """the full observation (len, every field in declaration order, tolist, written bytes) of one table in both
+    modes -> (n rows of the eager table, [(where, op, Divergence or None)])"""
     try:
-        names = [f.name for f in dataclasses.fields(E[0])]
+        names = [f.name for f in dataclasses.fields(et)]
     except Exception:
         names = []
     try:
-        n = len(E[0])
+        n = len(et)
     except Exception:
         n = 0
     obs = [("len", ["len"])] + [("get", ["get", f]) for f in names] + [("tolist", ["tolist"]), ("write", ["write"])]
-    seen = set(d.key() for d in divs)
+    out = []
     for where, op in obs:
-        lo = _outcome(lambda: apply_op(env, op, L, None, "lazy"))
-        eo = _outcome(lambda: apply_op(env, op, E, None, "eager"))
-        st, d = _compare(len(prog), where, lo, eo, bytes_like=(op[0] == "write"), fmt=env.fmt)
-        if d and where in ("tolist", "write") and d.kind.startswith(("bytes-differ", "values-differ")) and \
-                any(x.op == "get" and x.kind.startswith("values-differ") and x.step == len(prog) for x in divs):
+        lo = _outcome(lambda: apply_op(env, op, [lt, None], None, "lazy"))
+        eo = _outcome(lambda: apply_op(env, op, [et, None], None, "eager"))
+        st, d = _compare(step, where, lo, eo, bytes_like=(op[0] == "write"), fmt=env.fmt)
+        out.append((where, op, d))
+    return n, out
+
+
+def _is_consequence(where, d, got_get):
+    """a tolist / write difference of a table one of whose columns was already seen to differ"""
+    return where in ("tolist", "write") and d.kind.startswith(("bytes-differ", "values-differ")) and got_get
+
+
+def run_program(env, prog, final=True):
+    """-> (status, [Divergence]); status in ok / skip / both-fail(step).  Stops at the first diverging step; the
+    final observation reports every diverging observation (of the retained tables first, then of the final one)."""
+    status, divs, L, E = _execute(env, prog)
+    if status == "both-fail-read":
+        return "both-fail", divs
+    if status in ("skip", "diverged") or not final:
+        return status, divs
+    divs = list(divs)
+    seen = set(d.key() for d in divs)
+    if len(E) > 2 or len(L) > 2:
+        for d in retained_divergences(env, prog, L, E):
+            if d.key() not in seen:
+                seen.add(d.key())
+                divs.append(d)
+    n, raw = _observe(env, L[0], E[0], len(prog))
+    for where, op, d in raw:
+        if d and _is_consequence(where, d, any(x.op == "get" and x.kind.startswith("values-differ") and
+                                               x.step == len(prog) and not x.where.startswith(RETAINED)
+                                               for x in divs)):
             continue   # a consequence of the diverging column already reported
         if d:
             d.empty = (n == 0)
@@ -624,6 +657,87 @@ def run_program(env, prog, final=True):
             d.detail = "final observation %s: %s" % ("/".join(op), d.detail)
             divs.append(d)
     return ("diverged" if divs else status), divs
+
+
+# ----------------------------------------------------------------------------------------------------------------
+# retained intermediate tables
+# ----------------------------------------------------------------------------------------------------------------
+# ["keep"] retains a reference to the current table, later ops go on with the tables derived from it (replace,
+# indexing, concatenate) or assign to it in place (t.f = array; then the retained table IS the current one and
+# must change in both modes alike).  After the last op every retained table that is no longer the current one is
+# observed in full: it must still equal its eager counterpart.  ["swapk"] makes the last retained table the current
+# one again (and retains the derived one), so that an assignment to the OLD table after a derivation is in scope
+# as well (the NEW table must not change).
+
+RETAINED = "retained:"
+DERIVING = ("idx", "cat", "replace")
+
+
+def histories(prog):
+    """for every keep of the program, the ops that were applied to the retained OBJECT itself (the ops before it
+    was derived-from, in-place assignments and observations while it was current): its own history, as a program.
+    None if the program exchanges t and u (then an operand of a concatenation has a history of its own)"""
+    hist_t, kept = [], []
+    for op in prog:
+        k = op[0]
+        if k == "swap":
+            return None
+        if k == "keep":
+            kept.append(hist_t)           # the same list: later in-place ops on this object belong to it
+        elif k == "swapk":
+            if not kept:
+                return None
+            hist_t, kept[-1] = kept[-1], hist_t
+        elif k in DERIVING:
+            hist_t = hist_t + [list(op)]  # a new object
+        else:
+            hist_t.append(list(op))
+    return kept
+
+
+def own_history_divergences(env, hist):
+    """{(observation, kind, header)} of the full observation of the table made by the program `hist` alone.  A
+    retained table that shows exactly such a divergence shows nothing that the linear program `hist` does not show
+    already (and is reported there): it is not counted against the retention."""
+    key = tuple(tuple(o) for o in hist)
+    if key not in env.hist_cache:
+        out = set()
+        status, divs, L, E = _execute(env, hist)
+        if status in ("ok", "both-fail"):
+            n, raw = _observe(env, L[0], E[0], len(hist))
+            out = set((tuple(op), d.kind, getattr(d, "header", None)) for where, op, d in raw if d)
+        env.hist_cache[key] = out
+    return env.hist_cache[key]
+
+
+def retained_divergences(env, prog, L, E):
+    hists = histories(prog)
+    out = []
+    for k in range(2, max(len(L), len(E))):
+        if k >= len(L) or k >= len(E):
+            break   # cannot happen: keep never fails
+        if L[k] is L[0] and E[k] is E[0]:
+            continue    # still the current table in both modes: the final observation is its observation
+        if any(L[k] is L[j] and E[k] is E[j] for j in range(2, k)):
+            continue    # retained twice
+        n, raw = _observe(env, L[k], E[k], len(prog))
+        if not any(d for where, op, d in raw):
+            continue
+        explained = own_history_divergences(env, hists[k - 2]) if hists is not None else set()
+        got_get = False
+        for where, op, d in raw:
+            if d is None or (tuple(op), d.kind, getattr(d, "header", None)) in explained:
+                continue
+            if _is_consequence(where, d, got_get):
+                continue
+            if where == "get" and d.kind.startswith("values-differ"):
+                got_get = True
+            d.empty = (n == 0)
+            d.where = RETAINED + d.where
+            d.kept = k - 2
+            d.detail = "table retained by keep #%d, observed after the later ops, %s: %s" % (k - 1, "/".join(op), d.detail)
+            out.append(d)
+    return out
 
 
 # ----------------------------------------------------------------------------------------------------------------
@@ -720,14 +834,15 @@ def signature(env, labels, div, chunked_only=False):
 
 def collapsed_signature(env, div):
     """divergences that cover a whole region of the scope whatever the program: one signature, no minimisation"""
+    ret = div.where.startswith(RETAINED)   # a retained table: never the signature of the linear region
     if div.kind == HEADER_ONLY:
-        return "%s:write:%s:%s" % (env.fmt, HEADER_ONLY, getattr(div, "header", "?"))
+        return "%s:%swrite:%s:%s" % (env.fmt, RETAINED if ret else "", HEADER_ONLY, getattr(div, "header", "?"))
     if div.empty:
         return "%s:empty-table=>%s:%s" % (env.fmt, div.where, div.kind)
     if "only 0-dimensional arrays can be converted" in div.detail:
         # t[i] / str(t) of a table with ragged columns: npstructures' single-row access raises under this numpy
         # unless the column happens to be contiguous; which mode fails depends on what was materialised before
-        return "%s:single-row-access:one-mode-fails:ragged-row-TypeError" % env.fmt
+        return "%s:%ssingle-row-access:one-mode-fails:ragged-row-TypeError" % (env.fmt, RETAINED if ret else "")
     return None
 
 
@@ -802,6 +917,134 @@ def redundant(prog):
         if a == b and (a[0] in PURE or a[0] == "swap"):
             return True
     return False
+
+
+def replaceable(fields):
+    """the fields that take an array value, a representative of every kind first (int, seqid, str, float)"""
+    names = [f for f, _ in fields]
+    kinds = dict(fields)
+    out = []
+    for k in ("int", "seqid", "str", "float"):
+        fs = [f for f in names if kinds[f] == k]
+        if fs:
+            out.append(fs[0])
+    return out + [f for f in names if kinds[f] != "other" and f not in out]
+
+
+K = ["keep"]
+
+
+def retained_core(f1, f2):
+    """t1 made by replace / assignment of f1, retained, then a table derived from it gets f2 (and further
+    assignments): the programs that a dictionary of user-set values shared between t1 and its derivative breaks"""
+    R1, R2, R1b = ["replace", f1, "fresh"], ["replace", f2, "fresh2"], ["replace", f1, "fresh2"]
+    S1, S2 = ["set", f1, "fresh"], ["set", f2, "fresh2"]
+    return [
+        [K, R1, K, R2],                                   # t, t1 = replace(t, f1), t2 = replace(t1, f2): observe t, t1
+        [S1, K, R2],                                      # t.f1 = v1; t2 = replace(t, f2)
+        [R1, K, R2, ["set", f1, "fresh2"]],               # ... t2.f1 = w: t1.f1 stays v1
+        [R1, K, R2, ["swapk"], ["set", f2, "fresh"]],     # ... t1.f2 = w afterwards: t2.f2 stays v2
+        [R1, K, ["idx", "s_tail"], S2],                   # t2 = t1[1:]; t2.f2 = w
+        [S1, K, ["cat", "tt"], S2],                       # t2 = concatenate([t1, t1]); t2.f2 = w
+        [R1, ["get", f2], K, R2],                         # f2 of t1 was parsed (cached) before it is replaced in t2
+        [R1, K, R1b],                                     # the same field again
+    ]
+
+
+def retained_full(f1, f2):
+    """{ways to make t1} x {keep} x {ways to derive from t1 and go on}"""
+    R1, R2, R1b = ["replace", f1, "fresh"], ["replace", f2, "fresh2"], ["replace", f1, "fresh2"]
+    S1, S2 = ["set", f1, "fresh"], ["set", f2, "fresh2"]
+    S1b, S2a = ["set", f1, "fresh2"], ["set", f2, "fresh"]
+    makes = [[], [R1], [S1], [["get", f2], R1], [["get", f1], S1], [R1, ["get", f2]], [["tolist"], R1], [R1, ["write"]]]
+    derives = [
+        [R2], [R1b], [R2, S1b], [R2, K, R1b], [R2, ["swapk"], S2a], [R2, ["swapk"], R1b],
+        [["idx", "s_tail"]], [["idx", "m_alt"]], [["idx", "i_rev"]], [["idx", "s_tail"], S2], [["idx", "s_tail"], ["write"]],
+        [["idx", "s_all"], ["swapk"], S2], [["idx", "m_all"], S1b],
+        [["cat", "tt"]], [["cat", "tt"], S2], [["cat", "tt"], ["swapk"], S2],
+    ]
+    for m in makes:
+        for d in derives + ([[["cat", "tu"]], [["cat", "ut"], S2]] if not m else []):
+            yield m + [K] + d
+
+
+def retained_chain(f1, f2, f3):
+    """chains of three derivations with different fields, every earlier link retained"""
+    R1, R2, R3 = ["replace", f1, "fresh"], ["replace", f2, "fresh2"], ["replace", f3, "fresh"]
+    return [
+        [K, R1, K, R2, K, R3],
+        [["set", f1, "fresh"], K, R2, K, R3],
+        [K, R1, K, R2, ["set", f3, "fresh"]],
+        [R1, K, R2, K, ["idx", "s_tail"], ["set", f3, "fresh"]],
+    ]
+
+
+def retained_programs(fields, family, which):
+    """family core / full: which = 'rep' (the representative pair: two fields of different kinds where there are)
+    or 'all' (every ordered pair of distinct replaceable fields); family chain: the representative triple or every
+    ordered triple (at most 24, else the rotations of the representative one)"""
+    r = replaceable(fields)
+    if family == "chain":
+        if len(r) < 3:
+            return
+        triples = [tuple(r[:3])]
+        if which == "all":
+            triples = list(itertools.permutations(r, 3))
+            if len(triples) > 24:
+                triples = [tuple(r[:3]), (r[1], r[2], r[0]), (r[2], r[0], r[1]), (r[2], r[1], r[0])]
+        for tr in triples:
+            for p in retained_chain(*tr):
+                yield p
+        return
+    if len(r) < 2:
+        return
+    pairs = [(r[0], r[1])] if which == "rep" else list(itertools.permutations(r, 2))
+    for f1, f2 in pairs:
+        for p in (retained_core(f1, f2) if family == "core" else retained_full(f1, f2)):
+            yield p
+
+
+ALLPAIRS_QUICK = ("bed", "bdg", "fastq", "sizes")
+ALLPAIRS_FULL = ("bed", "bdg", "fastq", "fasta2", "sizes", "gfa", "csv", "bam")
+FULL_QUICK = ("bed", "fastq", "sam", "vcf0", "bam", "csv")
+
+
+def plan_retained(tier):
+    """-> (tasks in order of priority, samples, seconds); task = (family, which, fmt, mode)"""
+    cs = {fmt: ["chunk:%d" % c for c in chunk_sizes(fmt)] for fmt in ALL_FORMATS}
+    t = []
+    if tier == "quick":
+        t += [("core", "rep", f, "whole") for f in ALL_FORMATS]
+        t += [("core", "all", f, "whole") for f in ALLPAIRS_QUICK]
+        t += [("core", "all", f, cs[f][0]) for f in ("bed", "fastq")]
+        t += [("core", "rep", f, cs[f][0]) for f in MAIN]
+        t += [("chain", "rep", f, "whole") for f in ALL_FORMATS]
+        t += [("full", "rep", f, "whole") for f in FULL_QUICK]
+        t += [("chain", "all", "bed", "whole")]
+        return t, [(f, "whole", 2, 6) for f in ALL_FORMATS], 13
+    t += [("core", "all", f, "whole") for f in ALL_FORMATS]
+    t += [("core", "all", f, cs[f][0]) for f in MAIN]
+    t += [("core", "rep", f, m) for f in ALL_FORMATS for m in cs[f]]
+    t += [("chain", "all", f, m) for f in ALL_FORMATS for m in ("whole", cs[f][0])]
+    t += [("full", "rep", f, m) for f in ALL_FORMATS for m in ("whole", cs[f][0])]
+    t += [("full", "all", f, "whole") for f in ALLPAIRS_FULL]
+    t += [("full", "all", f, cs[f][0]) for f in ("bed", "fastq")]
+    return t, [(f, m, 15, 7) for f in ALL_FORMATS for m in ["whole"] + cs[f][:1]], 170
+
+
+def sample_retained(rng, wide, maxlen):
+    """a random program over the wide alphabet (without the exchange of t and u) with one or two keeps in it, the
+    first one followed by at least one deriving op, and sometimes a swapk"""
+    ops = [o for o in wide if o[0] != "swap"]
+    derive = [o for o in ops if o[0] in DERIVING]
+    n = rng.randint(3, maxlen - 1)
+    prog = [list(rng.choice(ops)) for _ in range(n)]
+    i = rng.randint(0, n - 1)
+    prog[i:i] = [K, list(rng.choice(derive))]
+    if rng.random() < 0.5:
+        j = rng.randint(i + 2, len(prog))
+        prog[j:j] = [K if rng.random() < 0.5 else ["swapk"]]
+    return prog
 
 
 class Runner:
@@ -928,6 +1171,48 @@ def plan(tier):
     return tasks, samples
 
 
+def run_retained(col, r, tier):
+    """the retained-table programs, within their own share of the budget (the tasks are in order of priority)"""
+    tasks, samples, seconds = plan_retained(tier)
+    info = {"seconds": seconds, "tasks": [], "cut": [], "sampled": []}
+    t0 = time.time()
+    stop = False
+    for family, which, fmt, mode in tasks:
+        if stop:
+            info["cut"].append([family, which, fmt, mode])
+            continue
+        contract = "lockstep-retained:%s" % ("whole" if mode == "whole" else "chunked")
+        try:
+            r.ops(fmt, mode, "mini")
+            fields = r.fields[(fmt, mode)]
+        except Exception:
+            continue   # the read itself fails: reported by the linear part
+        n0 = col.evaluations
+        for prog in retained_programs(fields, family, which):
+            r.evaluate(fmt, mode, [list(o) for o in prog], contract)
+            if time.time() - t0 > seconds:
+                stop = True
+                col.exhaustive = False
+                break
+        info["tasks"].append({"family": family, "fields": which, "fmt": fmt, "mode": mode,
+                              "evaluated": col.evaluations - n0, "complete": not stop})
+    import random
+    rng = random.Random("C05-retained-%s" % col.seed)   # its own stream: the linear samples of a seed stay the same
+    for fmt, mode, n, maxlen in samples:
+        if stop or time.time() - t0 > seconds:
+            break
+        try:
+            wide = r.ops(fmt, mode, "wide")
+        except Exception:
+            continue
+        n0 = col.evaluations
+        for _ in range(n):
+            r.evaluate(fmt, mode, sample_retained(rng, wide, maxlen), "lockstep-retained-sampled")
+        info["sampled"].append({"fmt": fmt, "mode": mode, "n": col.evaluations - n0, "len": "5..%d" % (maxlen + 2)})
+    info["wall_s"] = round(time.time() - t0, 1)
+    return info
+
+
 def run(tier="quick", seed=0):
     col = Collector(PID, tier, seed,
                     "every program (sequence of public ops: len, get f, t[slice|mask|int list], t[i], concatenate tu/ut/tt/tut, "
@@ -946,6 +1231,7 @@ def run(tier="quick", seed=0):
               "exhaustive": [], "sampled": [], "cut": []}
     with TmpDir() as tmp:
         r = Runner(col, tmp)
+        bounds["retained"] = run_retained(col, r, tier)
         stop = False
         sample_budget = 0.85 * col.budget_s   # the exhaustive part stops here so that the sampled part always runs
         for L, fmt, mode, level in tasks:
